@@ -1205,6 +1205,16 @@ def chk_strtok(bk, mods, tier):
                             % (sc.desc, got, 'NULL' if t0 is None else 's+%d' % t0, facts(T2, s, ln, dl, dn)))
                     exp = {s.pos(z): Lin(0)} if z is not None else {}
                     check_mem(bk, rule, fn, sc, T2, exp, set(exp), 'the-delimiter-behind-the-token-becomes-zero')
+                    if sv is None and t0 is None:
+                        # no token: whatever is saved for the next call must still be a position of the string (at most the
+                        # terminator) - a position behind it makes the next strtok_r(NULL, ..) scan foreign memory
+                        v = T2.mem.get(cell)
+                        if isinstance(v, PtrVal) and not v.is_null and v.obj == s.obj and v.off.is_const():
+                            ok = 0 <= v.off.c - s.base <= ln
+                            bk.note(rule + ':state', fn, 'a-call-that-finds-no-token-leaves-a-saved-position-inside-the-string', ok,
+                                    None if ok else '%s: the call returns NULL and saves s+%d, which is behind the terminator at '
+                                    's+%d: the next call continues in memory that is not part of the string'
+                                    % (sc.desc, v.off.c - s.base, ln))
                     if sv is not None:
                         v = T2.mem.get(cell)
                         ok = isinstance(v, PtrVal) and v.obj == s.obj and v.off.is_const() and v.off.c == s.base + sv
